@@ -37,6 +37,7 @@ func cmdRun(args []string) {
 	fn := fs.String("func", "", "harness function")
 	workers := fs.Int("workers", 8, "workers")
 	concrete := fs.Bool("concrete", false, "concrete-only run")
+	concCap := fs.Int("concretize-cap", 0, "cap on case splits of one symbolic integer")
 	maxPaths := fs.Int("max-paths", 0, "path budget")
 	timeout := fs.Int("solver-timeout", 2000, "ms")
 	solver := fs.String("solver", "z3", "z3|z3-new|cvc5")
@@ -62,7 +63,7 @@ func cmdRun(args []string) {
 		fmt.Fprintf(os.Stderr, "harness %s.%s not found\n", pkgPath, *fn)
 		os.Exit(2)
 	}
-	cfg := interp.ExploreConfig{Harness: *fn, Workers: *workers, ConcreteOnly: *concrete, MaxPaths: *maxPaths, SolverTimeout: *timeout, SolverKind: *solver, Verbose: *verbose, Tier: *tier}
+	cfg := interp.ExploreConfig{Harness: *fn, Workers: *workers, ConcreteOnly: *concrete, MaxPaths: *maxPaths, SolverTimeout: *timeout, SolverKind: *solver, Verbose: *verbose, Tier: *tier, ConcretizeCap: *concCap}
 	res := interp.Explore(env, cfg, f)
 	printResult(res)
 }
